@@ -2736,7 +2736,10 @@ def permutations(lhs, ctx):
     lhs = iterable(lhs, ctx=ctx)
     return LazyList(
         map(
-            lambda x: "".join(x) if all(isinstance(y, str) for y in x) else x,
+            lambda x: "".join(x)
+            if (x or isinstance(lhs, str))
+            and all(isinstance(y, str) for y in x)
+            else x,
             itertools.permutations(
                 iterable(lhs, number_type=range, ctx=ctx), len(lhs)
             ),
